@@ -62,14 +62,29 @@ class Prop(BaseProp):
             ctx.expect(d is None, what, "%s: %s" % (label, d))
 
         lst = sts if N > 2 else [a, b]
-        # ---- 1. MRTS=0 equals keyword omitted (exact)
-        for name, extra in (("isi_profile", {}), ("spike_profile", {"RI": RI}), ("spike_sync_profile", {"max_tau": mt}),
-                            ("spike_train_order_profile", {"max_tau": mt}), ("isi_distance", {}), ("spike_distance", {"RI": RI}),
-                            ("spike_sync", {"max_tau": mt}), ("isi_distance_matrix", {}), ("spike_sync_matrix", {"max_tau": mt})):
+        # ---- 1. MRTS=0 equals keyword omitted (exact) - through every public entry point.  (Cases follow each other in one
+        # process, and the previous case ended with calls that passed MRTS>0 / 'auto': a default that leaks from an earlier
+        # call into a later call which omits the keyword shows up here.)
+        for name, form, kws, takes_iv in common.ENTRY_POINTS:
             fn = getattr(ps, name)
-            args = (lst,) if "matrix" in name or N > 2 else (a, b)
-            eq(ctx.call(fn, *args, MRTS=0, **extra), ctx.call(fn, *args, **extra), "mrts0!=omitted:" + name, "%s with MRTS=0 vs omitted" % name, 0)
-
+            extra = {}
+            if "RI" in kws:
+                extra["RI"] = RI
+            if "max_tau" in kws:
+                extra["max_tau"] = mt
+            if name == "spike_directionality_matrix":
+                extra["normalize"] = False
+            if name in ("spike_train_order", "spike_train_order_bi", "spike_train_order_multi") and sum(len(s_) for s_ in tr) == 0:
+                continue
+            forms = []
+            if form in ("bi", "any"):
+                forms.append((a, b))
+            if form in ("list", "any"):
+                forms.append((sts,))
+            for args0 in forms:
+                r_omit = ctx.call(fn, *args0, **extra)
+                r_zero = ctx.call(fn, *args0, MRTS=0, **extra)
+                eq(r_zero, r_omit, "mrts0!=omitted:" + name, "%s with MRTS=0 vs keyword omitted" % name, 0)
         # ---- 2. monotonicity in MRTS
         if m2 > m1:
             ctx.count("mrts_pair_distinct")
